@@ -383,6 +383,9 @@ def corpus(prefix="", tree_has=("f.bin", "dir/g.txt")):
                                   ["xfer", "STOR", f"{P}/t2.bin", 8192], ["pasv"], ["xfer", "MLSD", f"{P}/dir"], ["quit"]]
     S["pasv_twice"] = login + [["pasv"], ["pasv"], ["epsv"], ["xfer", "RETR", f"{P}/dir/g.txt"], ["quit"]]
     S["noconnect"] = login + [["epsv"], ["xfer", "RETR", f"{P}/f.bin", None, "never"], ["cmd", "PWD"], ["quit"]]
+    # (for servers with an unlimited data-connection wait: the peer never connects and never gets a 425; it just goes on)
+    S["noconnect_nowait"] = login + [["epsv"], ["raw", f"RETR {P}/f.bin\r\n".encode().hex(), "noreply"], ["sleep", 0.5], ["raw", b"PWD\r\n".hex(), "noreply"],
+                                    ["sleep", 0.5], ["cut", "fin"]]
     S["nologin"] = [["connect"], ["cmd", "PWD"], ["cmd", f"RETR {P}/f.bin"], ["cmd", "PASV"], ["quit"]]
     S["stor_unreachable"] = login + [["epsv"], ["xfer", "STOR", f"{P}/no/such/dir/f", 10], ["cmd", "PWD"], ["quit"]]
     S["stor_slow"] = login + [["epsv"], ["xfer", "STOR", f"{P}/slow.bin", 20000, "before", 0, 2000, 0.002], ["quit"]]
